@@ -17,6 +17,7 @@ pub mod c05;
 pub mod c11;
 pub mod c17;
 pub mod c18;
+pub mod c19;
 
 pub fn meta(id: &str, tier: &str) -> Option<CheckMeta> {
     match id {
@@ -36,6 +37,7 @@ pub fn meta(id: &str, tier: &str) -> Option<CheckMeta> {
         "C11" => Some(c11::meta(tier)),
         "C17" => Some(c17::meta(tier)),
         "C18" => Some(c18::meta(tier)),
+        "C19" => Some(c19::meta(tier)),
         _ => None,
     }
 }
@@ -72,6 +74,7 @@ pub fn worker(ctx: &Ctx, res: &mut ShardResult) {
         "C11" => c11::worker(ctx, res),
         "C17" => c17::worker(ctx, res),
         "C18" => c18::worker(ctx, res),
+        "C19" => c19::worker(ctx, res),
         _ => panic!("unknown check"),
     }
 }
@@ -98,6 +101,7 @@ pub fn replay(path: &str) -> i32 {
         "C11" => c11::replay(&v["case"]),
         "C17" => c17::replay(&v["case"]),
         "C18" => c18::replay(&v["case"]),
+        "C19" => c19::replay(&v["case"]),
         _ => vec![format!("no replayer for {}", id)],
     };
     let _ = json!(null);
